@@ -176,11 +176,14 @@ class AbstractWorkflowStore(ABC):
         result: StopEvent | None = None,
         error: str | None = None,
         idle_since: datetime | None | _Unset = _UNSET,
+        unless_terminal: bool = False,
     ) -> None:
         """Update status and related fields for an existing handler.
 
         Loads the handler by run_id, updates status/timestamps/provided fields,
         and writes back. If the handler is not found, logs a warning and returns.
+        With ``unless_terminal`` the update is skipped when the stored status is
+        already terminal (decided under the same lock as the write).
         """
         # This is a read-modify-write of the whole row. Writers of one run are
         # serialised, or one that read the row before a terminal status was
@@ -196,6 +199,8 @@ class AbstractWorkflowStore(ABC):
                 )
                 return
             handler = found[0]
+            if unless_terminal and handler.status in TERMINAL_STATUSES:
+                return
             now = datetime.now(timezone.utc)
             if status is not None:
                 handler.status = status
